@@ -57,120 +57,22 @@ def run(cx, chk):
         "orderings of two offsets, the loop runs at most input-length+2 times provided the body terminates.")
     chk.assumptions = ["termination of the rule body itself (C01's well-formedness assumption)"]
     check_strict(cx, chk)
+    from . import wrapsem
     n = 0
-    for w in memo.cached_wrappers(cx):
-        if not w.ok or not w.leftrec:
+    names = {"seed": "C07.seed", "progress": "C07.progress", "exit": "C07.exit", "shape": "C07.shape"}
+    for w in wrapsem.cached(cx):
+        if not w.ok:
+            if w.path is not None and any("LeftRecursionSentinel" in str(st.get("rv", {}).get("variant")) for i in w.body.reach for st in w.body.blocks[i]["stmts"] if st["k"] == "assign"):
+                for (rid, detail, msg, site) in w.viol:
+                    chk.violation("C07.shape", ("%s %s" % (w.tag, detail)).strip(), msg, site)
+            continue
+        if not w.leftrec:
             continue
         n += 1
-        tag = "%s/%s" % (w.inst.name, w.rule)
-        b = w.body
-        L = memo.LeftrecLoop(w)
-        if L.problems:
-            for p in L.problems:
-                chk.violation("C07.shape", "%s %s" % (tag, p), "left-recursive wrapper not recognised: %s" % p, cx.site(b))
-            continue
-        Bx = ("local", L.B)
-        # ---- seed
-        if len(L.seed_defs) != 1:
-            chk.violation("C07.seed", tag + " seed-count", "expected one seed assignment before the loop, found %d" % len(L.seed_defs), cx.site(b))
-        else:
-            sb, d = L.seed_defs[0]
-            e = norm(b.expr_rv(d[3])) if d[2] == "rv" else None
-            okseed = False
-            if e and e[0] == "agg" and e[2] == "Err":
-                inner = e[3][0][1]
-                if is_call(inner, "report_error") and len(inner[2]) == 2:
-                    st, spec = inner[2]
-                    st_src = st[2][0] if is_call(st, "clone") else st
-                    if w.state_capture(st_src) and spec[0] == "agg" and spec[2] == "LeftRecursionSentinel":
-                        okseed = True
-            ins_before = [i for (i, _) in w.inserts if i not in L.loop and b.dominates(i, L.head) and b.dominates(sb, i)]
-            body_calls_before = [obb for (obb, body, i, t) in w.flat.items
-                                 if obb not in L.loop and b.dominates(w.miss, obb)
-                                 and not t["func"].get("indirect") and t["func"]["path"].startswith(w.inst.prefix)]
-            if okseed and ins_before and not body_calls_before:
-                chk.ok("C07.seed", tag, {"wrapper": tag, "seed": mir.show(e), "insert_bb": ins_before[0]})
-            else:
-                chk.violation("C07.seed", tag, "no failing sentinel seed stored under the entry key before the first body "
-                              "evaluation (seed=%s, insert before loop=%s, body calls before loop=%s)"
-                              % (mir.show(e) if e else None, bool(ins_before), len(body_calls_before)), cx.site(b, sb))
-        # ---- N: the value matched against B = result of the calls inside the loop that evaluate the body
-        # ---- progress
-        cyc = []
-        for src in L.back_srcs:
-            for pth in L.iter_paths(L.head, {src}):
-                if all(x in L.loop for x in pth):
-                    cyc.append(pth)
-        good_cyc = 0
-        for pth in cyc:
-            edges = L.path_edges(pth)
-            ins = [x for x in pth if x in L.insert_bbs]
-            defs = [x for x in pth if any(x == db for (db, _) in L.loop_defs)]
-            why = None
-            if not ins or not defs:
-                why = "a trip round the loop neither updates nor re-stores the best result"
-            else:
-                strict = [(e, v) for (e, v, _) in edges if v is True and is_call(e, "is_further_than") and len(e[2]) == 2
-                          and is_ok_state_of(e[2][1], Bx) and e[2][0][0] == "field" and e[2][0][2] == "state"
-                          and e[2][0] != e[2][1]]
-                first = [(e, v) for (e, v, _) in edges if e[0] == "discr" and e[1] == Bx and v == 1]
-                new_ok = [(e, v) for (e, v, _) in edges if e[0] == "discr" and e[1] != Bx and v == 0]
-                if strict:
-                    # the new state compared must belong to the value that becomes B
-                    good_cyc += 1
-                elif first and new_ok:
-                    good_cyc += 1
-                else:
-                    why = "a trip round the loop is not guarded by the strict progress test nor by (new Ok, best Err)"
-            if why:
-                chk.violation("C07.progress", "%s %s" % (tag, why.split(" is ")[0][:60]),
-                              "growth loop of parse_%s: %s" % (w.rule, why), cx.site(b, pth[-1]),
-                              {"path": memo.describe_path(b, pth), "edges": [(mir.show(e), str(v)) for (e, v, _) in edges]})
-        if not cyc:
-            chk.violation("C07.progress", tag + " no-cycle", "no cyclic path found in the growth loop", cx.site(b))
-        elif good_cyc == len(cyc):
-            chk.ok("C07.progress", tag, {"wrapper": tag, "cyclic_paths": len(cyc), "loop_head": L.head})
-        # every loop assignment to B takes the new result and is followed by an insert
-        for (db, d) in L.loop_defs:
-            stops = {L.head} | set(b.returns)
-            found_bad = None
-            st = [db]
-            seen = set()
-            while st:
-                x = st.pop()
-                if x in seen:
-                    continue
-                seen.add(x)
-                if x in L.insert_bbs and x != db or (x == db and db in L.insert_bbs):
-                    continue
-                for y in b.succs(x):
-                    if y in stops and y not in L.insert_bbs:
-                        found_bad = y
-                    else:
-                        st.append(y)
-            if found_bad is not None:
-                chk.violation("C07.exit", tag + " update-without-store",
-                              "best result is updated without being re-stored in the cache before the next iteration / exit",
-                              cx.site(b, db))
-            else:
-                chk.ok("C07.exit", tag + " def@bb%d stored" % db)
-        # ---- exit: every return reachable from the miss edge returns B
-        miss_blocks = b.reachable_from(w.miss) - (b.reachable_from(w.hit) - b.reachable_from(w.miss))
-        rets = [(d[0], d) for d in b.defs.get(0, []) if d[0] in b.reachable_from(w.miss) and d[0] not in (b.reachable_from(w.hit) - {x for x in b.reachable_from(w.miss)})]
-        bad = []
-        for (rb, d) in b.defs.get(0, []) and [(d[0], d) for d in b.defs.get(0, [])]:
-            if rb not in b.reachable_from(w.miss) or b.dominates(w.hit, rb):
-                continue
-            okr = d[2] == "rv" and d[3]["k"] == "use" and d[3]["op"]["k"] in ("move", "copy") and d[3]["op"]["place"] == {"l": L.B, "p": []}
-            if not okr:
-                bad.append((rb, d))
-        if bad:
-            for (rb, d) in bad:
-                e = norm(b.expr_rv(d[3]) if d[2] == "rv" else b.expr_call(d[3]))
-                chk.violation("C07.exit", "%s returns %s" % (tag, short(e[1]) if e[0] == "call" else e[0]),
-                              "an exit of the left-recursive wrapper returns %s instead of the best result as last stored "
-                              "(a failing growth step then discards the grown seed / leaks the sentinel)" % mir.show(e),
-                              cx.site(b, rb))
-        else:
-            chk.ok("C07.exit", tag + " returns best", {"wrapper": tag, "best_local": "_%d" % L.B})
+        mine = [v for v in w.viol if v[0] in names]
+        for (rid, detail, msg, site) in mine:
+            chk.violation(names[rid], ("%s %s" % (w.tag, detail)).strip(), msg, site)
+        for rid in ("seed", "progress", "exit"):
+            if not any(v[0] == rid for v in mine):
+                chk.ok(names[rid], w.tag, {"wrapper": w.tag, "paths": len(w.leaves)})
     chk.floor("C07.progress", "leftrec wrappers", n, 2)
